@@ -269,6 +269,14 @@ def anchor_probe_dfa(rng):
                 break
         seen.add(ij)
         delta += [[p, 'a', ij[0]], [p, 'b', ij[1]], [p, 'c', 'sink'], [p, 'd', 'sink']]
+    if rng.random() < 0.5:
+        # variant: the probes form a chain on symbol d (instead of hanging under a router tree)
+        delta = [t for t in delta if not (t[0] in set(probes) and t[1] == 'd')]
+        for k, p in enumerate(probes):
+            delta.append([p, 'd', probes[k + 1] if k + 1 < M else 'sink'])
+        for x in Sigma:
+            delta.append(['sink', x, 'sink'])
+        return {'kind': 'dfa', 'Q': probes + anchors + ['sink'], 'Sigma': Sigma, 'delta': delta, 'q0': probes[0], 'F': [anchors[-1]]}
     # routers: a 4-ary tree whose leaves are the probes
     level = list(probes)
     routers = []
